@@ -238,3 +238,131 @@ func nsRemoteOK(offsets []int, n int) bool {
 //@ loop 1 invariant quoted-unchanged: old(nsQuoted(ns.offsets, b)) ==> unchanged(b)
 //@ loop 1 invariant alias: sameOrFresh(ns.unquotedNames, old(ns.unquotedNames))
 //@ loop 1 decreases len(ns.offsets) - i
+
+//@ func (*objectNameStack).length
+//@ inline
+//@ property C16 C20
+//@ requires ns != nil
+//@ ensures result == len(ns.offsets)
+
+//@ func (*objectNameStack).ensureCopiedBuffer
+//@ inline
+
+// push: a new innermost object without a name; everything below is untouched.
+//
+//@ func (*objectNameStack).push
+//@ property C16 C18 C20
+//@ requires ns != nil
+//@ modifies ns.offsets, ns.offsets[len(ns.offsets):cap(ns.offsets)]
+//@ ensures depth: len(ns.offsets) == old(len(ns.offsets))+1 && ns.offsets[len(ns.offsets)-1] == invalidOffset
+//@ ensures below: vForall(0, old(len(ns.offsets)), func(i int) bool { return ns.offsets[i] == old(ns.offsets[i]) })
+//@ ensures alias: sameOrFresh(ns.offsets, old(ns.offsets))
+
+//@ func (*objectNameStack).pop
+//@ property C16 C18 C20
+//@ requires ns != nil && len(ns.offsets) > 0
+//@ modifies ns.offsets
+//@ ensures depth: len(ns.offsets) == old(len(ns.offsets))-1
+//@ ensures below: vForall(0, len(ns.offsets), func(i int) bool { return ns.offsets[i] == old(ns.offsets[i]) })
+
+//@ func (*objectNameStack).clearLast
+//@ property C16 C20
+//@ requires ns != nil && len(ns.offsets) > 0
+//@ modifies ns.offsets[len(ns.offsets)-1:len(ns.offsets)]
+//@ ensures last: ns.offsets[len(ns.offsets)-1] == invalidOffset
+//@ ensures below: vForall(0, len(ns.offsets)-1, func(i int) bool { return ns.offsets[i] == old(ns.offsets[i]) })
+
+// ReplaceLastQuotedOffset records the innermost name as a reference to the
+// quoted name starting at offset i of the coder's buffer (always negative).
+//
+//@ func (*objectNameStack).ReplaceLastQuotedOffset
+//@ property C16 C20
+//@ requires ns != nil && len(ns.offsets) > 0 && i >= 0 && i < 1<<61
+//@ modifies ns.offsets[len(ns.offsets)-1:len(ns.offsets)]
+//@ ensures last: ns.offsets[len(ns.offsets)-1] < 0 && ^ns.offsets[len(ns.offsets)-1] == i && ns.offsets[len(ns.offsets)-1] != invalidOffset
+//@ ensures below: vForall(0, len(ns.offsets)-1, func(i int) bool { return ns.offsets[i] == old(ns.offsets[i]) })
+
+// getUnquoted(i) is the i-th local name: the bytes between the previous end
+// offset and the i-th end offset. It panics ("BUG") only if the innermost entry
+// is still remote, i.e. copyQuotedBuffer was not called.
+//
+//@ func (*objectNameStack).getUnquoted
+//@ property C16 C20
+//@ requires ns != nil && 0 <= i && i < len(ns.offsets) && nsLocalOK(ns.offsets, ns.unquotedNames) && vForall(0, len(ns.offsets), func(k int) bool { return ns.offsets[k] >= 0 })
+//@ ensures length: len(result) == ns.offsets[i]-ite(i == 0, 0, ns.offsets[max(i-1, 0)])
+//@ ensures bytes: vForall(0, len(result), func(k int) bool { return result[k] == ns.unquotedNames[ite(i == 0, 0, ns.offsets[max(i-1, 0)])+k] })
+
+// replaceLastUnquotedName stores s as the innermost name, directly after the
+// name below it.
+//
+//@ func (*objectNameStack).replaceLastUnquotedName
+//@ property C16 C20
+//@ requires ns != nil && len(ns.offsets) > 0 && nsLocalOK(ns.offsets, ns.unquotedNames) && vForall(0, len(ns.offsets), func(k int) bool { return ns.offsets[k] >= 0 })
+//@ modifies ns.unquotedNames, ns.unquotedNames[:cap(ns.unquotedNames)], ns.offsets[len(ns.offsets)-1:len(ns.offsets)]
+//@ ensures local: nsLocalOK(ns.offsets, ns.unquotedNames)
+//@ ensures end: ns.offsets[len(ns.offsets)-1] == len(ns.unquotedNames) && len(ns.unquotedNames) == ite(len(ns.offsets) > 1, ns.offsets[max(len(ns.offsets)-2, 0)], 0)+len(s)
+//@ ensures name: vForall(0, len(s), func(k int) bool { return ns.unquotedNames[len(ns.unquotedNames)-len(s)+k] == s[k] })
+//@ ensures below: vForall(0, len(ns.offsets)-1, func(i int) bool { return ns.offsets[i] == old(ns.offsets[i]) })
+//@ ensures below-bytes: vForall(0, len(ns.unquotedNames)-len(s), func(k int) bool { return ns.unquotedNames[k] == old(ns.unquotedNames[k]) })
+//@ ensures alias: sameOrFresh(ns.unquotedNames, old(ns.unquotedNames))
+
+// reset: whatever the previous contents, the stack is empty afterwards.
+//
+//@ func (*objectNameStack).reset
+//@ property C18 C20
+//@ requires ns != nil
+//@ modifies ns.offsets, ns.unquotedNames
+//@ ensures len(ns.offsets) == 0 && len(ns.unquotedNames) == 0
+//@ ensures cap(ns.offsets) <= 1<<6 && cap(ns.unquotedNames) <= 1<<10
+
+//@ func (*stateMachine).reset
+//@ property C18 C20
+//@ requires m != nil
+//@ modifies m.Stack, m.Last
+//@ ensures len(m.Stack) == 0 && m.Last == stateTypeArray && cap(m.Stack) <= 1<<10
+
+//@ func (*stateMachine).index
+//@ inline
+
+//@ func (stateMachine).DepthLength
+//@ property C02 C17 C20
+//@ ensures result0 == len(m.Stack)+1 && result1 == int64(seCount(m.Last))
+
+// NeedIndent: no indentation at the top level or inside an empty container that
+// is about to be closed; the current depth before a first or a further element;
+// one less before a closing delimiter.
+//
+//@ func (stateMachine).NeedIndent
+//@ property C06 C12 C20
+//@ ensures top: len(m.Stack) == 0 ==> n == 0
+//@ ensures empty-close: len(m.Stack) > 0 && seCount(m.Last) == 0 && (next == '}' || next == ']') ==> n == 0
+//@ ensures element: len(m.Stack) > 0 && !(next == '}' || next == ']') && (seCount(m.Last) == 0 || !(seObj(m.Last) && seCount(m.Last)%2 == 1)) ==> n == len(m.Stack)+1
+//@ ensures value: len(m.Stack) > 0 && !(next == '}' || next == ']') && seObj(m.Last) && seCount(m.Last)%2 == 1 ==> n == 0
+//@ ensures close: len(m.Stack) > 0 && seCount(m.Last) > 0 && (next == '}' || next == ']') ==> n == len(m.Stack)
+
+// MayAppendDelim appends exactly the delimiter needDelim names, or nothing.
+//
+//@ func (stateMachine).MayAppendDelim
+//@ property C06 C12 C20
+//@ modifies b[len(b):cap(b)]
+//@ ensures alias: sameOrFresh(result, b)
+//@ ensures colon: seObj(m.Last) && seCount(m.Last)%2 == 1 ==> len(result) == len(b)+1 && result[len(b)] == ':'
+//@ ensures comma: !(seObj(m.Last) && seCount(m.Last)%2 == 1) && seCount(m.Last) > 0 && next != '}' && next != ']' && len(m.Stack) != 0 ==> len(result) == len(b)+1 && result[len(b)] == ','
+//@ ensures none: !(seObj(m.Last) && seCount(m.Last)%2 == 1) && !(seCount(m.Last) > 0 && next != '}' && next != ']' && len(m.Stack) != 0) ==> len(result) == len(b)
+//@ ensures prefix: vForall(0, len(b), func(k int) bool { return result[k] == old(b[k]) })
+
+// InvalidateDisabledNamespaces: afterwards exactly the entries whose namespace
+// was disabled are invalid in addition to those already invalid; type bit,
+// disabled bit and count of every entry are unchanged.
+//
+//@ func (*stateMachine).InvalidateDisabledNamespaces
+//@ property C08 C20
+//@ requires m != nil
+//@ modifies m.Stack[:], m.Last
+//@ ensures last: seInvalid(m.Last) == (seInvalid(old(m.Last)) || seDisabled(old(m.Last))) && seObj(m.Last) == seObj(old(m.Last)) && seDisabled(m.Last) == seDisabled(old(m.Last)) && seCount(m.Last) == seCount(old(m.Last))
+//@ ensures stack: vForall(0, len(m.Stack), func(k int) bool { return seInvalid(m.Stack[k]) == (seInvalid(old(m.Stack[k])) || seDisabled(old(m.Stack[k]))) && seObj(m.Stack[k]) == seObj(old(m.Stack[k])) && seDisabled(m.Stack[k]) == seDisabled(old(m.Stack[k])) && seCount(m.Stack[k]) == seCount(old(m.Stack[k])) })
+//@ loop 0 invariant range: 0 <= i && i <= len(m.Stack)
+//@ loop 0 invariant done: vForall(0, min(i, len(m.Stack)), func(k int) bool { return seInvalid(m.Stack[k]) == (seInvalid(old(m.Stack[k])) || seDisabled(old(m.Stack[k]))) && seObj(m.Stack[k]) == seObj(old(m.Stack[k])) && seDisabled(m.Stack[k]) == seDisabled(old(m.Stack[k])) && seCount(m.Stack[k]) == seCount(old(m.Stack[k])) })
+//@ loop 0 invariant todo: vForall(i, len(m.Stack), func(k int) bool { return m.Stack[k] == old(m.Stack[k]) })
+//@ loop 0 invariant last: ite(i > len(m.Stack), seInvalid(m.Last) == (seInvalid(old(m.Last)) || seDisabled(old(m.Last))) && seObj(m.Last) == seObj(old(m.Last)) && seDisabled(m.Last) == seDisabled(old(m.Last)) && seCount(m.Last) == seCount(old(m.Last)), m.Last == old(m.Last))
+//@ loop 0 invariant stack: sameSlice(m.Stack, old(m.Stack))
